@@ -1382,7 +1382,7 @@ Proof.
     assert (maxd (fun x => Text.tdepth (encode_sorted x)) l <= maxd odepth l)%N; [|lia].
     apply maxd_bound. intros x Hx. rewrite Forall_forall in IH. pose proof (IH x Hx). pose proof (maxd_le odepth l x Hx). lia.
   - rewrite encode_sorted_obj, tdepth_obj, odepth_obj, maxd_map. cbn [snd].
-    assert (maxd (fun kv : bytes * tjson => Text.tdepth (snd kv)) (sort4 (map (fun kv => (fst kv, encode_sorted (snd kv))) ms))
+    assert (maxd (fun kv : bytes * tjson => Text.tdepth (snd kv)) (V4MergeFacts.sort4 (map (fun kv => (fst kv, encode_sorted (snd kv))) ms))
             <= maxd (fun kv => odepth (snd kv)) ms)%N; [|lia].
     apply maxd_bound. intros kv Hin. apply In_sort4 in Hin. apply in_map_iff in Hin as [kv0 [<- Hin0]]. cbn [snd].
     rewrite Forall_forall in IH. pose proof (IH kv0 Hin0). pose proof (maxd_le (fun kv => odepth (snd kv)) ms kv0 Hin0).
@@ -1413,9 +1413,10 @@ Lemma one_le_max_depth : (1 <= max_depth)%N. Proof. unfold max_depth. lia. Qed.
 
 Lemma as_obj_facts d t oa : tok t -> (1 <= d)%N -> (Text.tdepth t <= d)%N -> as_obj t = Some oa -> onum_ok oa /\ (odepth oa <= d)%N.
 Proof.
-  intros T D1 D. destruct t; cbn [as_obj]; try discriminate; intro E; inversion E; subst.
-  - split; [intros lit []|]. cbn. lia.
-  - split; [apply onum_ok_den; exact T|]. pose proof (den_depth_le (TObj ms)). lia.
+  intros T D1 D. destruct t; cbn [as_obj]; try discriminate; intro E.
+  - inversion E; subst. split; [intros lit []|]. cbn. lia.
+  - assert (Eo : oa = den (TObj ms)) by congruence. rewrite Eo. split; [exact (onum_ok_den _ T)|].
+    pose proof (den_depth_le (TObj ms)). lia.
 Qed.
 
 Lemma create_object_wf d x y p : tok y -> (1 <= d)%N -> (Text.tdepth y <= d)%N ->
